@@ -1,0 +1,21 @@
+//go:build verif
+
+package reporter
+
+import (
+	"context"
+	"net"
+
+	"github.com/sergeii/swat4master/internal/core/entities/master"
+)
+
+// VerifDispatch exposes the unexported message-type routing to the verification harness,
+// so that the real dispatch path can be driven in-process with arbitrary source addresses
+// and the reply bytes captured instead of written to a socket.
+func (d *Dispatcher) VerifDispatch(
+	ctx context.Context,
+	payload []byte,
+	addr *net.UDPAddr,
+) ([]byte, master.Msg, error) {
+	return d.dispatch(ctx, payload, addr)
+}
